@@ -146,3 +146,24 @@ func wReplay(prop string, specs map[string]*wSpec, path string) int {
 	}
 	return code
 }
+
+// crossMintP2PKMenu: W3 (default mint b) locks ecash of mint b to W1 (default mint a), plain and SIG_ALL; W1 receives
+// it at mint b or swaps it to its trusted mint a (for SIG_ALL that path first swaps at b with signed outputs, then
+// melts at b and mints at a).
+func crossMintP2PKMenu(w *wworld.World) []string {
+	var ops []string
+	if len(w.Tokens) < 2 && w.Wallets[2].W.GetBalance() >= 4 {
+		ops = append(ops, "sendpk|2|0|2", "sendpk|2|0|2|A", "send|2|2|0")
+	}
+	for ti, t := range w.Tokens {
+		if t.Kind == "plain" || t.To == 0 {
+			ops = append(ops, fmt.Sprintf("recv|0|%d|0", ti), fmt.Sprintf("recv|0|%d|1", ti))
+		}
+	}
+	if w.Wallets[0].W.GetBalance() >= 3 && len(w.Tokens) < 2 {
+		ops = append(ops, "send|0|2|0")
+	}
+	return ops
+}
+
+var crossMintCfg = wworld.Config{FeeA: 100, FeeB: 0, TwoMints: true, Wallets: []wworld.WalletCfg{{Default: "a"}, {Default: "a"}, {Default: "b"}}}
